@@ -149,8 +149,40 @@ def judge_positive_part(doc, version, location, declared, raw, what="value"):
                 # one mechanism, whatever the location: the length keywords were folded into the pattern
                 viols.append(("C01/length-violated-after-pattern-length-rewrite", f"{location} {name}={value!r:.80} schema={schema}"))
                 continue
+            if kws == {"pattern"} and widened_unquantified_atom(schema, value):
+                # one mechanism, whatever the location: the length keywords became a quantifier the pattern never had
+                viols.append(("C01/pattern-violated-after-pattern-length-rewrite:unquantified-atom", f"{location} {name}={value!r:.80} schema={schema}"))
+                continue
             viols.append((f"C01/{location}-{what}-violates:{suffix}", f"{name}={value!r:.80} schema={schema}"))
     return viols
+
+
+def widened_unquantified_atom(schema, value):
+    """The declared pattern is `^atom$` with one literal or character class and no quantifier, next to length keywords,
+    and the value is a longer run of that atom within the declared lengths."""
+    import re
+
+    try:
+        import re._parser as sre_parse
+        import re._constants as sre
+    except ImportError:  # pragma: no cover
+        import sre_constants as sre
+        import sre_parse
+    pattern = schema.get("pattern") if isinstance(schema, dict) else None
+    if not isinstance(pattern, str) or not isinstance(value, str) or not ("minLength" in schema or "maxLength" in schema):
+        return False
+    if not (pattern.startswith("^") and pattern.endswith("$")):
+        return False
+    try:
+        parsed = sre_parse.parse(pattern)
+    except re.error:
+        return False
+    if len(parsed) != 3 or parsed[0][0] != sre.AT or parsed[2][0] != sre.AT or parsed[1][0] not in (sre.LITERAL, sre.IN):
+        return False
+    lo, hi = schema.get("minLength", 0), schema.get("maxLength")
+    if len(value) < 2 or len(value) < lo or (hi is not None and len(value) > hi):
+        return False
+    return re.fullmatch(f"(?:{pattern[1:-1]})+", value) is not None
 
 
 def run_shard(spec, emit):
@@ -175,9 +207,14 @@ def run_shard(spec, emit):
             break
         version = rng.choice(["3.0", "3.0", "3.1", "2.0"])
         with_security = rng.random() < 0.4
-        doc, desc, method = gen.make_operation_document(rng, version, composite=(tier == "thorough"), with_security=with_security)
+        doc, desc, method = gen.make_operation_document(rng, version, composite=(tier == "thorough"), with_security=with_security, unquantified_atoms=True)
         cfg = {"allow_x00": rng.random() < 0.5, "codec": rng.choice(["utf-8", "utf-8", "ascii", "latin-1"]), "with_security_parameters": rng.random() < 0.5}
         declared, bodies, method, template = declared_parameters(doc, version)
+        for _, body_schema, _ in bodies:
+            # `type` is optional in JSON Schema: an object described by `properties` alone keeps its readOnly members
+            if isinstance(body_schema, dict) and body_schema.get("type") == "object" and "readOnly" in str(body_schema.get("properties")) and rng.random() < 0.5:
+                del body_schema["type"]
+                emit.count("untyped_object_bodies_with_readonly")
         try:
             schema = schemathesis.openapi.from_dict(doc)
             schema.generation_config = GenerationConfig(**cfg)
